@@ -9,7 +9,8 @@ from .. import core, check, cliflow, epcheck, gen, oracles, parseflow as pf, tex
 
 THEOREMS = ["C18_fields", "C18_stored_comments_are_trimmed", "C18_id", "C18_figure", "C18_consumption_line", "C18_production_line",
             "C18_auxiliary_line", "C18_output_line", "C18_demand_line", "C18_factor_line", "C18_metadata_line", "C18_factors_file",
-            "C18_saved_factors_evaluate_the_same", "C18_components_file"]
+            "C18_saved_factors_evaluate_the_same", "C18_components_file",
+            "C18_components_file_computable"]
 
 HALF2 = Fraction(5, 1000)
 HALF3 = Fraction(5, 10000)
@@ -181,13 +182,15 @@ def run(tier, seed):
         keep[cid] = (job, r)
         items.append((cid + ".dc", "", "same_text (show_components %s) %s" % (pf.g_components_u8(c["ok"]), pf.u8(r["comps_display"]))))
         items.append((cid + ".df", "", "same_text (show_factors %s) %s" % (pf.g_factors_u8(f["stripped"]["ok"] if False else f["ok"]), pf.u8(r["factors_display"]))))
+        # on which written files does the file-level theorem (C18_components_file) speak?
+        items.append((cid + ".hy", "", "Cteepbd.Proofs.CompFile.file_hypb %s" % pf.g_components_u8(c["ok"])))
         frt = r.get("factors_roundtrip", {})
         items.append((cid + ".pf", "", "verdict factors_eqb (parse_factors %s) %s" % (
             pf.u8(r["factors_display"]), pf.g_pres_factors({k: v for k, v in frt.items() if k != "text2"}))))
         # evaluation of the saved files
         second.append({"id": cid, "comps": {"text": r["comps_display"]}, "factors": {"text": r["factors_display"], "raw": True},
                        "strip": False, "evals": job["evals"]})
-    out, errs = core.run_coq_cases(prop, items, header=pf.HEADER)
+    out, errs = core.run_coq_cases(prop, items, header=pf.HEADER + "From Cteepbd Require Proofs.CompFile.\n")
     R.harness_errors.extend(errs)
     res2 = {r["id"]: r for r in core.run_jobs(second)}
     first_eval = {}
@@ -248,6 +251,8 @@ def run(tier, seed):
                 R.violations.append((what.split(":")[0][:70], replay))
             continue
         okc = True
+        hy = (out.get(cid + ".hy") or "")
+        stats["file_theorem_hypotheses_" + ("met" if "true" in hy else "not_met" if "false" in hy else "unknown")] += 1
         for suf, lab in ((".dc", "show_components vs Display"), (".df", "show_factors vs Display")):
             d = tf.parse_diff(out.get(cid + suf))
             if d == "unparsed":
